@@ -16,6 +16,12 @@ type Clause struct {
 	Src   string
 }
 
+type GuardClause struct {
+	Lock Expr
+	Objs []Expr
+	Src  string
+}
+
 type SendClause struct {
 	Type string
 	Clause
@@ -45,6 +51,7 @@ type FuncContract struct {
 	CheckLocks    bool
 	AssumeCalleePre bool
 	OnSend        []SendClause
+	Guarded       []GuardClause
 	Wraps         []string
 	Lock          []string
 	Props         []string // property ids this contract serves
@@ -292,6 +299,26 @@ func parseClause(fc *FuncContract, word, rest string) error {
 		default:
 			return fmt.Errorf("check %q", rest)
 		}
+	case "guarded":
+		// guarded <lock holder> : <object>, <object> ...   — the objects (maps, pointees) may be read only
+		// with the lock held (read or write) and written only with the write lock held
+		i := strings.Index(rest, ":")
+		if i < 0 {
+			return fmt.Errorf("guarded needs 'lock : objects'")
+		}
+		le, err := ParseExpr(rest[:i])
+		if err != nil {
+			return err
+		}
+		g := GuardClause{Lock: le, Src: strings.TrimSpace(rest)}
+		for _, part := range splitTop(rest[i+1:], ',') {
+			e, err := ParseExpr(part)
+			if err != nil {
+				return err
+			}
+			g.Objs = append(g.Objs, e)
+		}
+		fc.Guarded = append(fc.Guarded, g)
 	case "onsend":
 		// onsend <ElemType> [label] expr   — asserted at every channel send of that element type; the sent value is `msg`
 		tn, r2 := splitWord(rest)
@@ -617,9 +644,16 @@ func (p *parser) typeName() (string, error) {
 		return "", fmt.Errorf("type name expected, found %q", t.s)
 	}
 	s += t.s
-	for p.accept(".") {
-		t2 := p.next()
-		s += "." + t2.s
+	for {
+		if p.accept(".") {
+			s += "." + p.next().s
+		} else if p.accept("/") {
+			s += "/" + p.next().s
+		} else if p.accept("-") { // import paths such as lru-cache
+			s += "-" + p.next().s
+		} else {
+			break
+		}
 	}
 	return s, nil
 }
@@ -745,6 +779,27 @@ func (p *parser) postfix() (Expr, error) {
 			return e, nil
 		}
 	}
+}
+
+// exprString renders simple expressions (for labels).
+func exprString(e Expr) string {
+	switch x := e.(type) {
+	case *EIdent:
+		return x.Name
+	case *ESel:
+		return exprString(x.X) + "." + x.Name
+	case *EIndex:
+		return exprString(x.X) + "[" + exprString(x.I) + "]"
+	case *ELit:
+		return x.Text
+	case *ECall:
+		var as []string
+		for _, a := range x.Args {
+			as = append(as, exprString(a))
+		}
+		return x.Fun + "(" + strings.Join(as, ",") + ")"
+	}
+	return "expr"
 }
 
 func exprName(e Expr) string {
